@@ -292,8 +292,11 @@ class C08(BaseCheck):
     # probe: open + idle => able to carry the next request
     net.fault_plan.clear()
     for c in srv.sim.conns:
-      if c.silenced:
-        c.resume()          # the hung peer is healthy again
+      # A hung mux peer becomes healthy again on the same connection.  The serial transport
+      # must have replaced a connection on which a request timed out, so a hung serial
+      # connection stays hung: the probe has to travel on a fresh one.
+      if c.silenced and tr == 'mux':
+        c.resume()
     env.advance(0.05)
     srv.sim.mode = 'up'
     srv.sim.send_delay = None
